@@ -277,8 +277,8 @@ CHECKS.update({
                       "Capacities 1, 2 (exact), 3 (rounded), 5 (exact), 8 (rounded); exactly one producer thread (try_push by rvalue / lvalue / try_emplace / try_push_batch) and one consumer thread (try_pop variants, try_pop_batch). The consumer must receive 0,1,2,... exactly; a push may fail only if the ring could have been full given the pops completed before the call, a pop only if it could have been empty; quiescent exactness and lifetime balance as C34.",
                       [e1("conc", "spsc")], "§4 C34-C36", technique="PBT over producer and consumer op lists x capacities under generated dsched schedules; oracle = strict sequence check + may-fail-only-if rules + quiescent exactness", note=CONC_NOTE),
     "C36": pool_check("ChaseLevDeque delivers each element exactly once",
-                      "Capacities 1, 2, 4, 8; one owner (try_push, try_pop, try_pop_into) and 1-3 thieves (try_steal, try_steal_into). Every value returned at most once and only if pushed; a successful owner pop returns the newest element the owner has not popped; when a steal of v has returned no older element may remain untaken or be taken by an operation that started later; an owner pop may fail only if everything left was taken by thieves; a push may fail only with capacity elements unpopped; at quiescence pops come newest-first, steals oldest-first, both fail iff empty.",
-                      [e1("conc", "cld")], "§4 C34-C36", technique="PBT over owner / thief op lists under generated dsched schedules; oracle = exactly-once ledger + owner-stack model + interval-based oldest-first rule + quiescent exactness", note=CONC_NOTE + " Fence-based reasoning on weaker hardware models is out of E1's reach (see C10)."),
+                      "Capacities 1, 2, 4, 8; int and 32-byte POD payloads; one owner (try_push, try_pop, try_pop_into) and 1-3 thieves (try_steal, try_steal_into). Every value returned at most once and only if pushed, never a mix of two pushed values; a successful owner pop returns the newest element the owner has not popped; when a steal of v has returned no older element may remain untaken or be taken by an operation that started later; an owner pop may fail only if everything left was taken by thieves; a push may fail only with capacity elements unpopped; at quiescence pops come newest-first, steals oldest-first, both fail iff empty.",
+                      [e1("conc", "cld"), e1("conc", "cld", variant="dschedF", quick=3000, thorough=80000), nat("conc", "cld", quick=1500, thorough=60000)], "§4 C34-C36", technique="PBT over owner / thief op lists x payload type (int, 32-byte POD whose words all encode the id) under generated dsched schedules, at atomic-operation granularity and at plain-memory-access granularity (slot copies are then schedule points), and natively with real threads; oracle = exactly-once ledger + torn-copy detector + owner-stack model + interval-based oldest-first rule + quiescent exactness", note=CONC_NOTE + " Fence-based reasoning on weaker hardware models is out of E1's reach (see C10)."),
     "C37": pool_check("ConcurrentObjectArena growth and copies are exact",
                       "Buffer sizes 1, 2, 3, 4, 8 (rounded up to powers of two by the class), 1-4 growers with grow_by(0..9) lists (any resulting buffer count: 1..64), then one of copy construction, copy assignment, move assignment, swap, move construction. Ranges disjoint and covering [0,size()); every new element default constructed (recognisable member initialisers) before its grower claims it; a reference taken before the growth stays valid; the copy / moved / swapped arena has the same size and contents and does not alias the original.",
                       [e1("conc", "arena")], "§4 C37", technique="PBT over grower lists x buffer sizes x copy operation under generated dsched schedules; oracle = index ownership map + default-value check + element-wise comparison of copies", note=CONC_NOTE),
